@@ -24,6 +24,7 @@ THE SOFTWARE.
 """
 
 import ast
+from copy import deepcopy
 from functools import cached_property, lru_cache
 
 
@@ -313,7 +314,9 @@ def optimize_mapper(
         new_method_defs = []
 
         for mname in sorted(method_defs):
-            mdef = method_defs[mname]
+            # The ASTs are cached per file and shared between all classes
+            # optimized in this process: rewrite a copy, not the original.
+            mdef = deepcopy(method_defs[mname])
 
             mdef = _replace(mdef,
                     args=_replace(mdef.args,
